@@ -327,6 +327,7 @@ fn placement_world(
       via_header: false,
       items: mk_items(edge1, &mid_url),
       x_ts_types: None,
+      source_map: None,
       broken: false,
       serve: Serve::Module,
     },
@@ -348,6 +349,7 @@ fn placement_world(
         mk_items(edge2, &target_text)
       },
       x_ts_types: None,
+      source_map: None,
       broken: false,
       serve: Serve::Module,
     },
@@ -357,6 +359,7 @@ fn placement_world(
       via_header: false,
       items: vec![],
       x_ts_types: None,
+      source_map: None,
       broken: false,
       serve: Serve::Module,
     },
@@ -366,6 +369,7 @@ fn placement_world(
       via_header: false,
       items: vec![],
       x_ts_types: None,
+      source_map: None,
       broken: false,
       serve: Serve::Module,
     },
@@ -375,6 +379,7 @@ fn placement_world(
       via_header: false,
       items: vec![],
       x_ts_types: None,
+      source_map: None,
       broken: false,
       serve: Serve::Module,
     },
@@ -391,6 +396,7 @@ fn placement_world(
       via_header: false,
       items: vec![],
       x_ts_types: None,
+      source_map: None,
       broken: false,
       serve: Serve::Redirect(to),
     });
@@ -401,6 +407,7 @@ fn placement_world(
     via_header: false,
     items: vec![],
     x_ts_types: None,
+    source_map: None,
     broken: false,
     serve: Serve::Module,
   };
